@@ -1,0 +1,15 @@
+//go:build verif
+
+// Contracts for the verification machinery in /verif (comment-only; never compiled into a binary).
+// Property C11: node-pressure eviction takes only eligible victims, in order, and only as needed.
+
+package util
+
+//@ func subReleaseListNoNegative [C11]
+//@   ensures #dom: forall n corev1.ResourceName :: has(result, n) <==> (has(a, n) && val(a, n) > val(b, n))
+//@   ensures #val: forall n corev1.ResourceName :: has(result, n) ==> val(result, n) == val(a, n) - val(b, n)
+//@   ensures #fresh: result != nil && result != a && result != b
+//@   loop 1 invariant res != nil && res != a && res != b && fresh(res)
+//@   loop 1 invariant forall n corev1.ResourceName :: has(res, n) <==> ($seen[n] && has(a, n) && val(a, n) > val(b, n))
+//@   loop 1 invariant forall n corev1.ResourceName :: has(res, n) ==> val(res, n) == val(a, n) - val(b, n)
+//@   loop 1 invariant forall n corev1.ResourceName :: $seen[n] ==> has(a, n)
